@@ -199,6 +199,10 @@ class AliasTwin(BoundedCheck):
                 amap = dict(zip(names, targets))
                 for pref in ([], ['Y'], names[:1], names[:2] if k >= 2 else [], names[:1] + ['Y'], ['Y'] + names[:1], ['C'] + names[1:2]):
                     yield {'aliases': amap, 'preferred': list(pref)}
+                if k and len(targets) == len(set(targets)):
+                    # the same map with a variable listed under its own name as well (a self-map of a variable)
+                    yield {'aliases': dict(amap, Y='Y'), 'preferred': []}
+                    yield {'aliases': dict({'C': 'C'}, **amap), 'preferred': names[:1]}
 
     @staticmethod
     def resolve(amap, name, depth=0):
